@@ -21,6 +21,7 @@ CONSTANTS MaxBlocks,       \* bound on block ids handed out
           MaxOps,
           Window,          \* irreversible slide window w (0 = off)
           ActiveTxs,       \* subset of the catalogue used by this configuration
+          BlockBudget,     \* size budget of a block's pool transactions, in units of 100 KB (a "big" tx weighs 3)
           KF_PoolMasksBlockOrder, \* known deviation: a block that lists a consumer before its producer plays on
                                   \* a node whose pool already holds both (pool members are skipped)
           KF_PlayKeepsStaleReader, \* known deviation: see Play
@@ -47,9 +48,11 @@ OF(to, amt, fz) == [to |-> to, amt |-> amt, fz |-> fz]
 NoKV == [k \in Keys |-> NoRd]
 (* bad: "" = honest; "amount" = every input cites one unit less than the output it spends really holds (outputs sum
    to the cited total): such a transaction is never current (CheckInputEqualOutput compares cited and stored amount) *)
-Tok(ins, outs) == [ins |-> ins, outs |-> outs, reads |-> NoKV, writes |-> NoKV, bad |-> ""]
-TokBad(ins, outs, bad) == [ins |-> ins, outs |-> outs, reads |-> NoKV, writes |-> NoKV, bad |-> bad]
-KV(reads, writes) == [ins |-> {}, outs |-> <<>>, reads |-> reads, writes |-> writes, bad |-> ""]
+(* big: the transaction carries a 300 KB description (block size limit, C13) *)
+Tok(ins, outs) == [ins |-> ins, outs |-> outs, reads |-> NoKV, writes |-> NoKV, bad |-> "", big |-> FALSE]
+TokBad(ins, outs, bad) == [ins |-> ins, outs |-> outs, reads |-> NoKV, writes |-> NoKV, bad |-> bad, big |-> FALSE]
+KV(reads, writes) == [ins |-> {}, outs |-> <<>>, reads |-> reads, writes |-> writes, bad |-> "", big |-> FALSE]
+KVBig(reads, writes) == [ins |-> {}, outs |-> <<>>, reads |-> reads, writes |-> writes, bad |-> "", big |-> TRUE]
 R1(v) == [k \in Keys |-> IF k = "k1" THEN v ELSE NoRd]
 R2(v) == [k \in Keys |-> IF k = "k2" THEN v ELSE NoRd]
 TX == [
@@ -70,7 +73,11 @@ TX == [
   p8 |-> KV([k \in Keys |-> IF k = "k1" THEN "p2" ELSE "p7"], R2("w2")),  \* reads two keys, writes one
   p9 |-> KV([k \in Keys |-> None], [k \in Keys |-> IF k = "k1" THEN "x1" ELSE "x2"]),   \* creates both keys (k2 is its 2nd write)
   p10 |-> KV(R2("p9"), R2("x3")),                                      \* overwrites k2 (written at another offset by p9)
-  w1 |-> TokBad({<<"g", 0>>}, <<O("c", 10)>>, "amount")               \* cites 9 for g.0, which holds 10 (outputs = what it really holds)
+  w1 |-> TokBad({<<"g", 0>>}, <<O("c", 10)>>, "amount"),              \* cites 9 for g.0, which holds 10 (outputs = what it really holds)
+  b1 |-> KVBig(NoKV, NoKV),                                           \* big, touches nothing
+  b2 |-> KVBig(NoKV, NoKV),
+  b3 |-> KVBig(R2(None), R2("y1")),                                   \* big, creates k2
+  s4 |-> KV(R2("b3"), R2("y2"))                                       \* small, depends on b3
 ]
 AllTxs == DOMAIN TX
 Txs == ActiveTxs
@@ -241,12 +248,19 @@ DevFrozen(differs) == IF KF_FrozenLedgerHeight /\ differs THEN dev \cup {"KF_Fro
 
 (* ---- Mine: the node packs its own pool (in the order seq), confirms and PlayForMiner ----------- *)
 Packable == {t \in pool : ~Confirmed(t)}       \* the miner skips pending txs that are already on the main chain
-Mine(seq) ==
-  /\ n < MaxBlocks /\ ptr = ltip /\ Range(seq) = Packable /\ NoDupSeq(seq) /\ Len(seq) = Cardinality(Packable)
+Size(t) == IF TX[t].big THEN 3 ELSE 0
+SizeOf(seq) == FoldLeft(LAMBDA acc, t : acc + Size(t), 0, seq)
+(* packBlock takes the pool's order and stops at the first transaction that does not fit any more *)
+PrefixFits(seq) == FoldLeft(LAMBDA acc, t : IF acc.open /\ acc.sum + Size(t) <= BlockBudget
+                                            THEN [open |-> TRUE, sum |-> acc.sum + Size(t), seq |-> Append(acc.seq, t)]
+                                            ELSE [acc EXCEPT !.open = FALSE],
+                            [open |-> TRUE, sum |-> 0, seq |-> <<>>], seq).seq
+Mine(seq) ==         \* seq = the transactions packed, in order
+  /\ n < MaxBlocks /\ ptr = ltip /\ Range(seq) \subseteq Packable /\ NoDupSeq(seq)
   /\ LET b == n + 1 IN
      /\ blk' = blk @@ (b :> [parent |-> ptr, height |-> Height(ptr) + 1, txs |-> seq]) /\ n' = b /\ ltip' = b
-     /\ ptr' = b /\ pool' = pool \ Packable
-     /\ utxo' = utxo \cup {AwardU(b)} \cup UNION {FeeU(t) : t \in Packable} /\ total' = total + Award
+     /\ ptr' = b /\ pool' = pool \ Range(seq)
+     /\ utxo' = utxo \cup {AwardU(b)} \cup UNION {FeeU(t) : t \in Range(seq)} /\ total' = total + Award
      /\ UNCHANGED <<zu, zd, dev, pruned>>
      /\ applied' = applied \cup {b}
      /\ irr' = NextIrr(irr, Height(ptr) + 1)
@@ -365,6 +379,16 @@ OpFault(o, r) == UNCHANGED <<blk, n, ltip, ptr, utxo, zu, zd, total, irr, pool, 
 AntiDep(r, w) == r # w /\ \E k \in Keys : /\ TX[w].writes[k] # NoRd /\ TX[r].writes[k] = NoRd
                                             /\ TX[r].reads[k] # NoRd /\ TX[r].reads[k] = TX[w].reads[k]
 PoolOrderOK(seq) == \A i, j \in DOMAIN seq : i < j => ~DependsOn(seq[i], seq[j]) /\ ~AntiDep(seq[j], seq[i])
+(* what packBlock may produce from the pool (the pool's own order is not observable, only the packed prefix is): an
+   admissible order of a dependency-closed subset that fits the budget and is maximal: either everything packable is
+   packed, or some transaction that could come next does not fit *)
+Producers(t) == {u \in Packable : DependsOn(t, u)}
+PackedOK(seq) ==
+  /\ Range(seq) \subseteq Packable /\ NoDupSeq(seq) /\ PoolOrderOK(seq)
+  /\ \A i \in DOMAIN seq : Producers(seq[i]) \subseteq {seq[j] : j \in 1..(i - 1)}
+  /\ SizeOf(seq) <= BlockBudget
+  /\ \/ Range(seq) = Packable
+     \/ \E t \in Packable \ Range(seq) : Producers(t) \subseteq Range(seq) /\ SizeOf(seq) + Size(t) > BlockBudget
 GoodOrder(S) ==               \* one admissible order, built greedily (exists for every conflict-free pool)
   FoldLeft(LAMBDA acc, i : LET ok == {c \in acc.rest : ~\E u \in acc.rest \ {c} : DependsOn(c, u) \/ AntiDep(u, c)}
                                c == IF ok = {} THEN CHOOSE x \in acc.rest : TRUE ELSE CHOOSE x \in ok : TRUE IN
@@ -451,7 +475,7 @@ Next ==
   /\ \/ \E t \in Txs : Submit(t, "*")
      \/ \E p \in 1..n, seq \in TxSeqs : MkBlock(p, seq)
      \/ \E b \in 2..n : Play(b, "*")
-     \/ Mine(GoodOrder(Packable))
+     \/ Mine(PrefixFits(GoodOrder(Packable)))
      \/ \E d \in 1..n : Walk(d, FALSE, {"*"}, <<>>)
      \/ Restart
 Spec == Init /\ [][Next]_vars
@@ -525,7 +549,7 @@ SnapGet(B, k) == SnapWalk(Cur(St, k), k, Height(B))
 SnapshotOK == ptr \in Anc(ltip) => \A B \in Anc(ptr), k \in Keys : Replay(B).ok => SnapGet(B, k) = Cur(Replay(B).s, k)
 TypeOK == ptr \in 1..n /\ ltip \in 1..n
 (* C13 (design level): a block packed from the pool in ANY admissible order is valid on its chain *)
-MinedBlocksValid == ptr = ltip => \A o \in TopoOrders(Packable) : PoolOrderOK(o) => SeqValidOn(ptr, o)
+MinedBlocksValid == ptr = ltip => \A o \in TopoOrders(Packable) : PoolOrderOK(o) => SeqValidOn(ptr, PrefixFits(o))
 
 View == <<blk, n, ltip, ptr, utxo, zu, zd, total, irr, pool, dev>>
 ViewIrr == <<blk, n, ltip, ptr, utxo, zu, zd, total, irr, pool, dev, applied, pruned>>
